@@ -20,6 +20,7 @@
        its own map size mh x mw), decoded by a LONG-LIVED engine: all pages of the sample go through one LayoutEngine
        object one after the other, some after a call that raised half-way, the first page once more at the end.
        via = "detect": as mode "ridges";  via = "parse": LayoutEngine.parse(maps, ds) alone (k = 0).
+       (mode "ridges" with hist > 0 - another engine with other constructor parameters in the same process - see HistBound.)
        TLC cannot enumerate such configurations (the design run covers up to three ridge slots), but the clause is not
        an oracle computed in Python: the ridges of the page are part of the trace and every one of them is judged here by
        the SAME LineMatches as in mode "ridges".  Only the search through all NL! bijections is replaced by its
@@ -45,6 +46,7 @@ TInit == /\ tid \in 1..NTraces
                                            d2 |-> Traces[tid].ridges[i].d2]]]
                  /\ pc = "maps"
             ELSE /\ cfg = [k |-> Traces[tid].k, ds |-> Traces[tid].ds, ep |-> Traces[tid].ep, rm |-> Traces[tid].rm,
+                           hist |-> IF "hist" \in DOMAIN Traces[tid] THEN Traces[tid].hist ELSE 0,
                            ridges |-> [i \in 1..Len(Traces[tid].ridges) |->
                                           [dy |-> Traces[tid].ridges[i].dy, y |-> Traces[tid].ridges[i].y, x0 |-> Traces[tid].ridges[i].x0,
                                            x1 |-> Traces[tid].ridges[i].x1, a2 |-> Traces[tid].ridges[i].a2,
@@ -144,7 +146,13 @@ UnrotOf(ln, pl) == /\ Len(ln.pts) = Len(pl.pts)
 UnrotWithinOnePixel == /\ Len(PL) = NL
                        /\ \A i \in 1..NL : \E j \in 1..Len(PL) : UnrotOf(L[i], PL[j])
 
-RidgeFailing == IF Tr.outcome # "ok" THEN 1
+\* several engines in one process (cfg.hist > 0): the driver built ANOTHER LayoutEngine with the recorded constructor parameters
+\* Tr.other through the real constructor and let it parse a page, then the default engine (also from the real constructor) decoded
+\* the configuration's maps.  The binding: the other engine is the one the design run explored (OtherEngines[hist]).  The verdict
+\* clauses below do not mention hist: what the default engine returns is judged against its own configuration alone.
+HistBound == HistOf = 0 \/ (HistOf \in 1..Len(OtherEngines) /\ Tr.other = OtherEngines[HistOf])
+RidgeFailing == IF ~HistBound THEN 9                                        \* (a driver bug, not a verdict on the code)
+                ELSE IF Tr.outcome # "ok" THEN 1
                 ELSE IF NL # Len(cfg.ridges) THEN 2                         \* exactly one line per ridge
                 ELSE IF ~OneLinePerRidge THEN 3                             \* positions / heights / outlines
                 ELSE IF ~RegionsCover THEN 4
